@@ -80,7 +80,13 @@ func (s *S) Run(c *scen.Ctx) {
 	s.writeTO = []time.Duration{ms(3000), ms(50), ms(400)}[simrt.Draw(3, "c09.writeto")]
 	s.readTO = []time.Duration{ms(100), ms(30), ms(700)}[simrt.Draw(3, "c09.readto")]
 	qlen := []int{10000, 1, 2}[simrt.Draw(3, "c09.qlen")]
-	comm := world.NewClient(world.ClientOpts{InvokeTimeoutMs: s.proxyTO, DialTimeout: s.dialTO, WriteTimeout: s.writeTO, ReadTimeout: s.readTO, QueueLen: qlen})
+	objMax := int32(0)
+	if s.faults {
+		// admission limit of the proxy: calls beyond it are refused at once ("invoke queue is full")
+		objMax = []int32{0, 0, 1, 3}[simrt.Draw(4, "c09.objmax")]
+	}
+	c.Describe("obj_queue_max", objMax)
+	comm := world.NewClient(world.ClientOpts{InvokeTimeoutMs: s.proxyTO, DialTimeout: s.dialTO, WriteTimeout: s.writeTO, ReadTimeout: s.readTO, QueueLen: qlen, ObjQueueMax: objMax})
 	var err error
 	s.srv, err = world.StartServer(addr, func(sc *world.SrvConn, req *refcodec.Request, raw []byte) { s.onRequest(c, sc, req) })
 	if err != nil {
